@@ -204,6 +204,8 @@ def run(ctx, rep):
     lib = ctx.lib
     no_drop(rep, lib)
     c06_shared.recover(rep, lib)
+    from rules import parser_rules as _PRS
+    _PRS.io_origin(rep, lib)
     eof_distinct(rep, lib)
     raw_io(rep, lib)
     from rules import pipeline_rules as _P
